@@ -82,6 +82,8 @@ def run(chk):
     if not (rm["error"] and "Invariant" in rm["error"]):
         raise vlib.ToolError("spec mutant 'one weight for all instances' does not violate BatchCorrelated: the model is vacuous")
     chk.cov["spec_mutant_shared_weight_rejected_by_model"] = True
+    # the same law over the full verifier algebra: members are complete runs of System (prover, wire, adversary, verifier)
+    vlib.batchsys_mc(chk)
     jobs = jobs_from(chk, pats, with_orders=True)
     # larger batches: one invalid member at each position of 6 / 12, and the +-d pair embedded among valid members
     big = 6 if q else 12
@@ -145,7 +147,9 @@ def run(chk):
         # (panics on toy curves come from zero challenges - inverse().unwrap() - and are degenerate events; the 256-bit runs police panics)
     chk.finish(
         rule="TLC model-checks BatchIff and BatchCorrelated over F_7 for every pattern of <= %d members of kinds {valid, tampered, bad witness, +d, -d} "
-             "(and requires the shared-weight spec mutant to fail); every pattern, in every order (<= 3 members), plus batches of %d with one invalid "
+             "(and requires the shared-weight spec mutant to fail), and MC_BatchSys over the full verifier algebra: batches whose members are complete runs of System "
+             "(honest, altered in transit, broken witness, failing early, and the same proof with b + 1 / b - 1) join with their combined residual - accepted iff "
+             "every member is, the first early failure is the batch's result, the pair's residuals are opposite, the shared-weight design fails; every pattern, in every order (<= 3 members), plus batches of %d with one invalid "
              "member at each position and with the +-d pair embedded, is run on the real batch_verify: on the 256-bit curves the verdict must be the "
              "conjunction of the individual verdicts; on toy79/toy31723 TLC recomputes each member's combined residual and the batch verdict from the "
              "recorded weights. distinct = distinct (curve, member list)" % (maxn, big),
